@@ -25,7 +25,7 @@ theorem commit_only_on_certified_two_chain (c : Committee) (name : Nat) (hd : De
   have i3 := reachable_inv3 c name hd es
   obtain ⟨_, b0, b1, blk, hrec, hanc⟩ := i5.commits x hx
   obtain ⟨hr, hp1, hp0⟩ := i5.chains b0 b1 blk hrec
-  have hck := i3.chains b0 b1 blk hrec
+  have hck := (i3.chains b0 b1 blk hrec).1
   exact ⟨b0, b1, blk, hrec, hanc, hr, hp0, hp1, hck.qc, hck.leader, hck.signed⟩
 
 /-- A non-genesis QC inside such a `blk` really is quorum-backed for `b1`'s digest. -/
@@ -37,7 +37,7 @@ theorem two_chain_qc_is_quorum_backed (c : Committee) (name : Nat) (hd : Deploy 
   have i5 := reachable_inv5 c name hd rfl es
   have i3 := reachable_inv3 c name hd es
   obtain ⟨_, hp1, _⟩ := i5.chains b0 b1 blk h
-  have hck := i3.chains b0 b1 blk h
+  have hck := (i3.chains b0 b1 blk h).1
   have hq : blk.qc.verify c = .ok () := by
     rcases hck.qc with hg | hq
     · rw [hng] at hg; cases hg
